@@ -36,4 +36,9 @@ def condAt (l : List Ev) (c : List Nat) (p : Ev → Bool) : Option Nat :=
 /-- every listed call of the handler is unconditional (not inside any if / match arm / loop / closure) -/
 def allUnconditional (c : List Nat) : Bool := c.all (· == 0)
 
+/-- every event satisfying `p` exists and sits at conditional depth 0 of the handler body (`c` = the parallel list of
+    enclosing-conditional counts): it runs on every path, whatever flags, kinds of bank or arguments are involved -/
+def unconditionally (l : List Ev) (c : List Nat) (p : Ev → Bool) : Bool :=
+  l.length == c.length && l.any p && (l.zip c).all (fun q => !p q.1 || q.2 == 0)
+
 end Mfi.Gen.Skel
